@@ -165,6 +165,31 @@ def check(rep, tier):
         rep.count("vials-crossing-the-threshold-more-than-once", int(((ab[:, 1:] & ~ab[:, :-1]).sum(axis=1) > 1).sum()))
         inside_tot += oracle(rep, cfg, r_all, rng)
         accessors(rep, cfg, r, rng)
+        if ri >= nruns:
+            # the same process stopped while a vial that had already exceeded the threshold is temporarily below it again: its recorded
+            # solidification time stands, and the state-derived one agrees
+            ab_ = r_all["XS"] > cfg["thr"]
+            kmid = None
+            for v in range(ab_.shape[0]):
+                if ab_[v].any():
+                    a0 = int(np.argmax(ab_[v]))
+                    below = np.nonzero(~ab_[v][a0:])[0]
+                    if len(below):
+                        b0 = a0 + int(below[0]); b1 = b0
+                        while b1 + 1 < ab_.shape[1] and not ab_[v][b1 + 1]:
+                            b1 += 1
+                        kmid = (b0 + b1) // 2; break
+            if kmid is not None and kmid > 2:
+                cfgD = dict(cfg, prog=dict(cfg["prog"], t_tot=float(kmid * cfg["dt"])))
+                try:
+                    rD = fr.run(cfgD, storeStates="all")
+                    rep.case("stopped-in-the-dip " + repr(cfgD["shape"]), nontrivial=True); rep.count("process stopped while a vial is back below the threshold")
+                    nvD = len(rep.violations)
+                    oracle(rep, cfgD, rD, rng); accessors(rep, cfgD, rD, rng)
+                    for v_ in rep.violations[nvD:]:
+                        v_["key"] = "stopped-in-dip " + v_["key"]; v_["what"] = "process stopped at t=%g s while a vial is back below the threshold: " % cfgD["prog"]["t_tot"] + v_["what"]
+                except Exception as e:
+                    rep.violation("crash %s" % type(e).__name__, "Snowflake.run raises %r for %s" % (e, cfgD), dict(config=cfgD, error=repr(e)))
         if ri % 4 == 0:
             # the same object run again (other seed): statistics and state-derived values are those of the NEW trajectory
             S2 = r["S"]
